@@ -373,15 +373,28 @@ impl<'a> SrcGen<'a> {
         }
         v
     }
+    /// one value in six is given as a reference to a number-array / integer object
+    fn indirect(&mut self, v: String, is_box: bool) -> String {
+        if !self.rng.chance(1, 6) {
+            return v;
+        }
+        let i = self.fresh();
+        let ob = if is_box { Ob::B(v) } else { Ob::I(v.parse().unwrap_or(0)) };
+        self.objs.push((i, ob));
+        format!("@{}", i)
+    }
     fn attrs(&mut self, d: &mut D, zero: bool, p: u64) {
         if self.rng.chance(p, 10) {
-            d.m = Some(self.boxs(zero));
+            let b = self.boxs(zero);
+            d.m = Some(self.indirect(b, true));
         }
-        if self.rng.chance(p, 70) {
-            d.b = Some(self.boxs(zero));
+        if self.rng.chance(p, 25) {
+            let b = self.boxs(zero);
+            d.b = Some(self.indirect(b, true));
         }
         if self.rng.chance(p, 10) {
-            d.r = Some(self.rot());
+            let r = self.rot();
+            d.r = Some(self.indirect(r, false));
         }
         if self.rng.chance(p, 14) {
             if self.rng.chance(1, 3) {
@@ -570,8 +583,87 @@ fn gen_split_mode(rng: &mut Rng, n: usize, with_ranges: bool) -> String {
     }
 }
 
+/// Sources whose pages carry a non-zero /Rotate — own, inherited from a group node, inherited
+/// from the root — crossed with all four angles (and their aliases), plus two-step sequences
+/// whose angles add up to a full turn: the composed rotation must come out as
+/// (source + angle) mod 360 also when that is 0 (a page that was rotated must be able to get
+/// back to /Rotate 0, i.e. the entry absent) and also for the unselected pages.
+fn gen_rotation_family(rng: &mut Rng, cases: &mut Vec<Case>) {
+    let rots: [i64; 9] = [90, 180, 270, -90, -180, -270, 450, 540, 630];
+    // every residue mod 360, under one of its aliases
+    let alias: [[i64; 3]; 4] = [[0, 360, 720], [90, 450, -270], [180, -180, 540], [270, -90, 630]];
+    for (ri, r) in rots.iter().enumerate() {
+        for place in 0..3 {
+            // 3 pages: page 3 under the root, pages 5 and 6 under group 4
+            let mut root = D { t: Some("S".into()), c: Some("3".into()), k: Some("3,4".into()), m: Some("0:0:612:792".into()), ..D::default() };
+            let mut grp = D { t: Some("S".into()), p: Some(2), c: Some("2".into()), k: Some("5,6".into()), ..D::default() };
+            let mut p3 = D { t: Some("P".into()), p: Some(2), o: Some(7), ..D::default() };
+            let mut p5 = D { t: Some("P".into()), p: Some(4), o: Some(8), ..D::default() };
+            let mut p6 = D { t: Some("P".into()), p: Some(4), ..D::default() };
+            match place {
+                0 => {
+                    // own /Rotate on two of the pages (page 6 stays at 0)
+                    p3.r = Some(r.to_string());
+                    p5.r = Some(rots[(ri + 1) % rots.len()].to_string());
+                }
+                1 => {
+                    // inherited from the group node; page 3 has none
+                    grp.r = Some(r.to_string());
+                }
+                _ => {
+                    // inherited from the root, overridden with 0 on page 6
+                    root.r = Some(r.to_string());
+                    p6.r = Some("0".into());
+                }
+            }
+            if place == 1 && ri % 2 == 0 {
+                p6.m = Some("10:20:300:400".into());
+                p6.b = Some("20:30:250:350".into());
+            }
+            let objs = vec![
+                (2, Ob::D(root)),
+                (3, Ob::D(p3)),
+                (4, Ob::D(grp)),
+                (5, Ob::D(p5)),
+                (6, Ob::D(p6)),
+                (7, Ob::S(b"q 1 0 0 1 10 20 cm Q".to_vec())),
+                (8, Ob::S(b"0.5 g".to_vec())),
+            ];
+            let src = show_req(1, 2, &objs);
+            let tag = ["own", "group", "root"][place];
+            let angles: Vec<i64> = alias.iter().map(|al| *rng.pick(al)).collect();
+            for a in angles.iter() {
+                let sel = match rng.below(3) {
+                    0 => "all".to_string(),
+                    1 => format!("s{}", rng.below(3)),
+                    _ => "r0-1".to_string(),
+                };
+                cases.push(Case::new(format!("rotate {} {} # {}", sel, a, src), format!("rotate rotfam-{} origin0 n3 nt", tag)));
+            }
+            // two steps that add up to a multiple of 360, and two that do not
+            for (a, b) in [(90i64, 270i64), (180, 180), (270, 90), (90, 90), (-90, 450)] {
+                if rng.chance(1, 2) {
+                    cases.push(Case::new(format!("rotate2 all {} all {} # {}", a, b, src), format!("rotate2 rotfam-{} origin0 n3 nt", tag)));
+                }
+            }
+        }
+    }
+    // an unrotated source turned by 90 and then by 270 (and 180 twice): back to /Rotate 0
+    let objs = vec![
+        (2, Ob::D(D { t: Some("S".into()), c: Some("2".into()), k: Some("3,4".into()), m: Some("0:0:200:300".into()), ..D::default() })),
+        (3, Ob::D(D { t: Some("P".into()), p: Some(2), ..D::default() })),
+        (4, Ob::D(D { t: Some("P".into()), p: Some(2), ..D::default() })),
+    ];
+    let src = show_req(1, 2, &objs);
+    for (a, b) in [(90i64, 270i64), (180, 180), (270, 90), (270, 450)] {
+        cases.push(Case::new(format!("rotate2 all {} all {} # {}", a, b, src), "rotate2 rotfam-back origin0 n2 nt"));
+        cases.push(Case::new(format!("rotate2 s0 {} r0-1 {} # {}", a, b, src), "rotate2 rotfam-back origin0 n2 nt"));
+    }
+}
+
 fn gen(rng: &mut Rng, tier: Tier) -> Vec<Case> {
     let mut cases = vec![];
+    gen_rotation_family(rng, &mut cases);
     let total = if tier == Tier::Quick { 700 } else { 12000 };
     for i in 0..total {
         let n = match rng.below(10) {
